@@ -66,6 +66,16 @@ def oracle_table(n, arcs):
     return table
 
 
+def differs(a, b):
+    """exact comparison of two costs (ints or floats): the float nearest to a large integer cost is a different number"""
+    from fractions import Fraction
+
+    try:
+        return abs(Fraction(a) - Fraction(b)) > Fraction(1, 10**9)
+    except (TypeError, ValueError, OverflowError):
+        return True
+
+
 def check_flow(n, arcs, supplies, flows, objective):
     """flows: {(u,v): f}. returns error or None"""
     capsum = {}
@@ -91,7 +101,7 @@ def check_flow(n, arcs, supplies, flows, objective):
             rest -= take
     if net != list(supplies):
         return ("conservation", f"net outflow {net}, required {list(supplies)}")
-    if abs(total - objective) > 1e-9:
+    if differs(total, objective):
         return ("objective_not_cost", f"objective {objective}, cheapest cost of the returned flow {total}")
     return None
 
@@ -122,7 +132,7 @@ def judge_result(fname, res, verdict, n, arcs, supplies, table, limited=False):
     e = check_flow(n, arcs, supplies, res.solution, res.objective)
     if e:
         return [e], "OPTIMAL"
-    if abs(res.objective - want[0]) > 1e-9:
+    if differs(res.objective, want[0]):
         return [("not_minimum", f"cost {res.objective}, minimum over all feasible flows is {want[0]}")], "OPTIMAL"
     return [], "OPTIMAL"
 
@@ -185,7 +195,7 @@ def run_graph(r, n, arcs, do_mcf=True, do_ns=True, labelled=False):
             res, err = (None, None) if verdict else v
             errs, label = judge_result("network_simplex", res, verdict or err, n, arcs, list(sup), table)
             _rec(r, "network_simplex", errs, label, table, list(sup), dict(wit, supplies=list(sup)), f"network_simplex({n}, {arcs}, {list(sup)})")
-            if not errs and res is not None and res.ok and tuple(sup) in costs_seen and abs(costs_seen[tuple(sup)] - res.objective) > 1e-9:
+            if not errs and res is not None and res.ok and tuple(sup) in costs_seen and differs(costs_seen[tuple(sup)], res.objective):
                 r["violations"].append(viol("network_simplex", "solvers_disagree", dict(wit, supplies=list(sup)), f"min_cost_flow cost {costs_seen[tuple(sup)]} vs network_simplex cost {res.objective} on {arcs} supplies {sup}"))
             # the same instance under an iteration limit: MAX_ITER / FEASIBLE claim nothing about optimality, every
             # other answer is judged exactly as before
@@ -452,6 +462,8 @@ def jobs(tier, seed):
     for L in (0, 1, 2):
         js.append(Job(f"n3_arclists_len{L}_full", 72**L, _n3_chunk, (L,) + full, describe="ordered arc lists (parallel/anti-parallel) on 3 nodes, caps {0,1,2}, costs {-1,0,1,2}; every (s,t,demand) and every balanced supply vector"))
     js.append(Job("n3_arclists_len3_huge_costs", 18**3, _n3_chunk, (3, (3,), (-2, 5, 10**10)), describe="3 arcs on 3 nodes, capacity 3, costs {-2, 5, 10^10}: one arc priced ten orders of magnitude above the others (penalty arcs; tolerances scaled by the cost sum)"))
+    for L in (1, 2, 3):
+        js.append(Job(f"n3_arclists_len{L}_cost_beyond_2^53", 24**L, _n3_chunk, (L, (1, 3), (-2, 2**53 + 1)), describe="arcs with cost 2^53+1 (not a double) next to cost -2, capacities {1,3}: total costs are integers that only exact arithmetic reports faithfully"))
     js.append(Job("n3_arclists_len3", 36**3, _n3_chunk, (3, (1, 2), (-1, 0, 2)), describe="3 arcs, caps {1,2}, costs {-1,0,2}"))
     for k in (1, 2, 3):
         cs = (-1, 0, 1, 2) if (k < 3 or tier == "thorough") else (-1, 1)
